@@ -212,7 +212,13 @@ def run_round_trips(b, tier, seed):
                 if c == 's' and ('"' in v or delim in v):
                     return '"' + v.replace('"', '""') + '"'
                 return repr(v) if c == 'x' else str(v)
-            lines = ([delim.join(cols)] if header else []) + [delim.join(cell(c, r[c]) for c in cols) for r in rows]
+            # CSVW `titles`: none, some or all of the columns carry a title, and the header row then holds the title
+            # instead of the declared name
+            rnd2 = random.Random(seed * 7919 + i)
+            titled = {0: [], 1: rnd2.sample(cols, rnd2.randint(1, 4)), 2: list(cols), 3: []}[i % 4]
+            titles = {c: 'Title of %s' % c for c in titled}
+            lines = ([delim.join(titles.get(c, c) for c in cols)] if header else []) \
+                + [delim.join(cell(c, r[c]) for c in cols) for r in rows]
             data = os.path.join(top, 'data%d.csv' % i)
             with open(data, 'w', encoding=enc, newline='') as fh:
                 fh.write('\n'.join(lines) + '\n')
@@ -231,11 +237,14 @@ def run_round_trips(b, tier, seed):
                                   {'name': 's', 'datatype': 'string'},
                                   {'name': 'b', 'datatype': {'base': 'boolean', 'format': '%s|%s' % (tb, fb)}},
                                   {'name': 'd', 'datatype': {'base': 'datetime', 'format': dfmt}}]}}]}
+            for col in md['tables'][0]['tableSchema']['columns']:
+                if col['name'] in titles:
+                    col['titles'] = titles[col['name']] if i % 2 else [titles[col['name']]]
             mdp = os.path.join(top, 'data%d-metadata.json' % i)
             with open(mdp, 'w') as fh:
                 json.dump(md, fh)
             w = {'delimiter': delim, 'encoding': enc, 'header': header, 'dialect': dialect, 'booleans': [tb, fb],
-                 'date_format': dfmt, 'rows': [{k: repr(v) for k, v in r.items()} for r in rows]}
+                 'titles': titles, 'date_format': dfmt, 'rows': [{k: repr(v) for k, v in r.items()} for r in rows]}
             b.case(('csv', i, delim, enc, header, tb, dfmt, repr(rows)))
             with quiet():
                 ok, df = b.guarded('C16.csv2pandas.noraise', lambda: csv2pandas(data, mdp), w)
